@@ -31,12 +31,6 @@ struct vf_input {
 };
 extern struct vf_input vfin;
 
-static size_t vf_strlen_bounded(const char *s, size_t max) {
-    size_t i = 0;
-    while (i < max && s[i]) i++;
-    return i;
-}
-
 void vf_harness(void) {
     const size_t n = VF_N;
 #if VF_MODE == 0
@@ -136,9 +130,12 @@ void vf_harness(void) {
 #else /* VF_MODE == 2 : arbitrary input, exactly sized buffer */
     char *s = malloc(n + 1);
     VF_ASSUME(s != NULL);
-    for (size_t i = 0; i < n; i++) s[i] = (char)vfin.b[i];
+    for (size_t i = 0; i < n; i++) {
+        VF_ASSUME(vfin.b[i] != 0); /* the string has length exactly n: the buffer is exactly strlen+1 bytes */
+        s[i] = (char)vfin.b[i];
+    }
     s[n] = 0;
-    size_t inlen = vf_strlen_bounded(s, n);
+    size_t inlen = n;
 #if VF_CODEC == URL
     size_t dl = qurl_decode(s);
 #elif VF_CODEC == B64
